@@ -98,13 +98,15 @@ Section Hydro.
   (* what Hydro leaves in FELDW, LIM, PRGES, NORMFK of the horizon, and the WRED it computes when the horizon is the first *)
   Record hydro_out := { ho_feldw : T; ho_lim : T; ho_prges : T; ho_normfk : T; ho_wred : T }.
 
-  Definition hydro (t : texture) (fk nfk pv : Z) (grw c : T) : hydro_out :=
+  (* stein = stone fraction of the horizon: since the repair d7a6e7d the threshold is computed from the scaled values
+     (input.go:1227-1228: calcWRed(LIM*100*(1-STEIN), FK*100*(1-STEIN))) *)
+  Definition hydro (t : texture) (fk nfk pv : Z) (grw c stein : T) : hydro_out :=
     let FK := ofZ fk / ofZ 100 in
     let LIM := FK - ofZ nfk / ofZ 100 in
     let PR := ofZ pv / ofZ 100 in
     let '(krr, krg) := krr_krg (tex_kind t) grw c in
     {| ho_feldw := FK + krr / ofZ 100; ho_lim := LIM; ho_prges := PR + krg / ofZ 100; ho_normfk := FK;
-       ho_wred := calc_wred (tex_is_sand t) (LIM * ofZ 100) (FK * ofZ 100) |}.
+       ho_wred := calc_wred (tex_is_sand t) (LIM * ofZ 100 * (one - stein)) (FK * ofZ 100 * (one - stein)) |}.
 
   (* ---------------- the per-layer parameters of the three routes (input.go:207-272) ---------------- *)
   Record lpar := { l_w : T; l_wmin : T; l_porges : T; l_wnor : T }.
@@ -165,7 +167,7 @@ Section Hydro.
   Definition thorizon := (texture * (Z * Z * Z) * T * T * Z)%type.
   Definition table_params (n : nat) (hz : list thorizon) (grw : T) : params :=
     let hs := map (fun h : thorizon => let '(t, (fk, nfk, pv), c, st, ukt) := h in
-                                       (hydro t fk nfk pv grw c, st, ukt)) hz in
+                                       (hydro t fk nfk pv grw c st, st, ukt)) hz in
     let ls := layers n (map (fun x : hydro_out * T * Z => let '(h, st, ukt) := x in (route_table h st, ukt)) hs) in
     params_of ls (match hs with (h, _, _) :: _ => ho_wred h | [] => zero end).
   Definition gw_update_table (n : nat) (hz : list thorizon) (grw : T) : params :=
@@ -233,7 +235,7 @@ Definition ordered_z (x : Z * Z * Z) : bool :=
 (* the first three only: what holds for the rows whose field capacity exceeds the pore volume *)
 Definition ordered_low_z (x : Z * Z * Z) : bool :=
   let '(lim, feldw, pv) := x in ((0 <? lim) && (lim <? feldw) && (0 <? pv) && (pv <? 200))%Z.
-(* LIM < WRED < FELDW for a stone-free top horizon: 0 < nFK and (1-f)*nFK + KRR > 0, f = 0.6 (sand) / 0.66 *)
+(* LIM < WRED < FELDW (both sides scaled by the same stone factor): 0 < nFK and (1-f)*nFK + KRR > 0, f = 0.6 (sand) / 0.66 *)
 Definition wred_z (t : texture) (nfk : Z) (gc cc : nat) : bool :=
   let '(a, _) := krr_krg_z (tex_kind t) gc cc in
   ((0 <? nfk) && (if tex_is_sand t then 0 <? 4 * nfk + 5 * a else 0 <? 17 * nfk + 25 * a))%Z.
